@@ -314,10 +314,20 @@ func genC06Engine(r *rng, n int, w *bufio.Writer) {
 	pool := c06Pool("||e.org^", false)
 	spool := c06Pool("||site.com^", false)
 	dpool := c06Pool("||e.org^", true)
+	// rules with document-level modifiers apply to document requests only and would not match the
+	// script request below: keep them rare on the request side
+	var rpool []string
+	for _, t := range pool {
+		if !strings.Contains(t, "block") && !strings.Contains(t, "document") && !strings.Contains(t, "elemhide") {
+			rpool = append(rpool, t, t, t)
+		} else if strings.Contains(t, "urlblock,genericblock") {
+			rpool = append(rpool, t)
+		}
+	}
 	req := func() *rules.Request { return rules.NewRequest("http://e.org/ad.js", "http://site.com/page", rules.TypeScript) }
 	for i := 0; i < n; i++ {
 		if r.chance(1, 2) {
-			ts := append(c06Multiset(r, pool, 6), c06Multiset(r, spool, 3)...)
+			ts := append(c06Multiset(r, rpool, 6), c06Multiset(r, spool, 3)...)
 			perms := 1 + r.n(3)
 			var classes []string
 			for p := 0; p < perms; p++ {
